@@ -212,9 +212,16 @@ def rule_astfields(P) -> RuleResult:
 # R-FIELDONCE: along every derivation path of a rule a field is captured at most once (unless declared a list capture), and
 # every alternative of a node rule gives each field the same kind of value (a rule result vs. the constant of a flag keyword)
 
-def _field_paths(e, limit=4000):
-    """-> set of tuples (sorted multiset of (name, kind)) over the derivation paths of the expression; kind 'value' | 'flag'"""
+def _field_paths(e, limit=4000, keywords=False):
+    """-> set of tuples (sorted multiset of (name, kind)) over the derivation paths of the expression; kind 'value' | 'flag'
+    (with keywords=True also ('WORD', 'kw') for every alphabetic token met on the path)"""
     G = _G()
+    if keywords:
+        _fp = lambda x: _field_paths(x, limit, True)
+        if isinstance(e, G.Token):
+            return {((e.token.upper(), 'kw'),)} if e.token.isalpha() else {()}
+    else:
+        _fp = _field_paths
 
     def seq(a, b):
         out = {tuple(sorted(x + y)) for x in a for y in b}
@@ -222,31 +229,31 @@ def _field_paths(e, limit=4000):
             raise AnalysisError('grammar: too many derivation paths in one rule')
         return out
     if isinstance(e, G.NamedList):
-        inner = _field_paths(e.exp)
+        inner = _fp(e.exp)
         return {tuple(sorted(x + ((e.name.rstrip('_') + '+', 'list'),))) for x in inner}
     if isinstance(e, G.Named):
         kind = 'flag' if isinstance(e.exp, G.Constant) else 'value'
-        inner = _field_paths(e.exp)
+        inner = _fp(e.exp)
         return {tuple(sorted(x + ((e.name.rstrip('_'), kind),))) for x in inner}
     if isinstance(e, G.Choice):
         out = set()
         for o in e.options:
-            out |= _field_paths(o)
+            out |= _fp(o)
         return out
     if isinstance(e, G.Sequence):
         cur = {()}
         for x in e.sequence:
-            cur = seq(cur, _field_paths(x))
+            cur = seq(cur, _fp(x))
         return cur
     if isinstance(e, G.Optional):
-        return {()} | _field_paths(e.exp)
+        return {()} | _fp(e.exp)
     if isinstance(e, (G.Closure, G.PositiveClosure, G.Join, G.PositiveJoin)) or type(e).__name__ in ('Gather', 'PositiveGather', 'EmptyClosure'):
-        inner = _field_paths(e.exp) if getattr(e, 'exp', None) is not None else {()}
+        inner = _fp(e.exp) if getattr(e, 'exp', None) is not None else {()}
         # a capture inside a repetition is a capture made any number of times
         return {tuple(sorted((n + '*', k) for n, k in x)) for x in inner} | {()}
     out = {()}
     for c in _children(e):
-        out = seq(out, _field_paths(c))
+        out = seq(out, _fp(c))
     return out
 
 
@@ -297,6 +304,23 @@ def rule_fieldonce(P) -> RuleResult:
             kw, nm = wrong[0]
             res.fail(construct, f'fieldonce:flag:{kw}', f'rule {r.name}: the flag of keyword {kw} is stored in field `{nm}`: the clause is '
                      f'taken for another one')
+            continue
+        # a clause keyword whose node has a field of its name leaves a trace there: on every derivation path on which the keyword is
+        # read, that field is captured (a date, a sub-tree or the flag True) - otherwise the clause is accepted and silently ignored
+        fields = {nm.rstrip('*').rstrip('+') for path in paths for nm, k in path}
+        lost = None
+        for path in sorted(_field_paths(r.exp, keywords=True)):
+            kws = {nm for nm, k in path if k == 'kw'}
+            caps = {nm.rstrip('*').rstrip('+') for nm, k in path if k != 'kw'}
+            for kw in sorted(kws):
+                if kw.lower() in fields and kw.lower() not in caps:
+                    lost = (kw, sorted(kws), sorted(caps))
+                    break
+            if lost:
+                break
+        if lost:
+            res.fail(construct, f'fieldonce:lost:{lost[0]}', f'rule {r.name}: on a derivation path that reads the keyword {lost[0]} (keywords '
+                     f'{lost[1]}, captures {lost[2]}) the field `{lost[0].lower()}` is not set: the clause is accepted and has no effect')
             continue
         res.ok({'rule': r.name, 'derivation_paths': len(paths), 'fields_captured_at_most_once': True, 'flags': [f'{k}->{n}' for k, n in flags]})
     if n < 30:
